@@ -480,6 +480,14 @@ def check_point_location(case, rec):
         if not _hexa_valid(mesh):
             raise Inconclusive("warped hexahedra are not valid")
     ops = case["ops"]
+    if ops and (len(case["queries"]) + len(ops)) % 2 == 0:
+        # half of the moved cases: warm the geometric caches on the unmoved mesh first (added by the lead) - a
+        # motion must invalidate them, a cold cache hides a dropped invalidation
+        X0 = np.asarray(mesh.coord, float)
+        for g0 in gm.main_groups(mesh):
+            c0 = X0[np.asarray(g0.connect, int)[0]].mean(axis=0)
+            mesh.Evaluate_dofsValues_at_coordinates(c0[None, :].copy(), np.ones(mesh.Nn))
+        rec.label("loc:warm_cache_before_motion")
     cg.apply_motion(mesh, ops)
     Q, t = cg.motion_map(ops)
     mirrored = _mirrored(r, ops)
